@@ -142,4 +142,12 @@ CLAIMED["C18"] = {
   "note": "PARTIAL: pipes, capture and status are decided by runs only; Batch half by script-byte correspondence only.",
   "technique": "Coq proof (argument vector exactness over a Bash word model) + probe-program runs through the implementation",
 }
+CLAIMED["C15"] = {
+  "text": "19 theorems, one per library function, for all arguments: the loop-by-loop transliteration of std/strings.tsh (with the Bash substring semantics) returns what the "
+          "specification of the Go function returns (Repeat: non-negative counts). Each run ties the transliteration to the compiled library under /bin/bash and the "
+          "specification to Go's real strings package on the same tuples, and checks that the library source is still the one quoted in the model.",
+  "ref": "DESIGN.md section 5/C15",
+  "note": "The step from the library source to the transliteration is by line-for-line quotation plus behavioural correspondence, not by proof.",
+  "technique": "Coq proof (library transliteration = Go specification, all inputs) + differential runs against Go's strings and the compiled library",
+}
 NOT_CLAIMED = {}
